@@ -21,5 +21,5 @@ let run id ops out =
   let desc = { fresh = md_fresh; decode = md_decode_into pf pip pb; serialize = Some md_serialize; fields; contents = (fun l -> l.md_contents);
     payload = (fun l -> l.md_payload); next = (fun _ l -> "t" ^ i (md_next l)); render_panics = md_render_panics;
     of_spec = (fun _ -> failwith "no spec"); junk_len = 0 } in
-  run_generic desc id ops out
+  Lsmallutil.run_with_decf desc (md_decode_fn pf pip pb) id ops out
 let registered = Registry.register "Lmdp" run
